@@ -40,6 +40,28 @@ def setup_path():
         sys.exit(2)
 
 
+def ensure_deps():
+    """jsonschema (metaschema validation for C20) is not in /venv: install it
+    from the offline wheelhouse into /verif/.deps when missing."""
+    deps = os.path.join(ROOT, ".deps")
+    if deps not in sys.path:
+        sys.path.append(deps)  # appended: /venv's own packages keep priority
+    try:
+        import jsonschema  # noqa
+        return
+    except ImportError:
+        pass
+    cmd = [sys.executable, "-m", "pip", "install", "-q", "--no-index", "--find-links",
+           "/opt/veriftools/wheels", "--target", deps, "jsonschema"]
+    p = subprocess.run(cmd, capture_output=True, text=True)
+    if p.returncode != 0:
+        print("HARNESS-ERROR cannot install jsonschema from the wheelhouse:\n" + p.stderr[-1500:])
+        sys.exit(2)
+    import importlib
+    importlib.invalidate_caches()
+    import jsonschema  # noqa
+
+
 def run_seed(prop, seed, idx):
     h = hashlib.sha256(f"{prop}:{seed}:{idx}".encode()).digest()
     return int.from_bytes(h[:8], "big")
@@ -180,8 +202,13 @@ def run_pool(tasks, jobs, deadline=None, on_result=None, task_timeout=None):
             if status != "ok":
                 raise HarnessFailure("worker exception:\n" + payload)
             results.append(payload)
-            if on_result:
-                on_result(payload)
+            if on_result and on_result(payload) is True:
+                # early stop requested: abandon what is still running
+                for c2, (p2, _, _) in active.items():
+                    p2.kill()
+                    p2.join(5)
+                    c2.close()
+                return results, len(pending)
         now = time.time()
         for conn, (p, t0, args) in list(active.items()):
             if now - t0 > task_timeout:
@@ -229,6 +256,8 @@ def main(argv=None):
     setup_path()
     sys.setrecursionlimit(20000)
     prop = args.property
+    if prop == "C20":
+        ensure_deps()
     seed = args.seed if args.seed is not None else int(os.environ.get("VERIF_SEED", "0") or 0)
     if args.replay:
         return replay(prop, args.replay)
